@@ -96,6 +96,26 @@ def rule_MO1(rep, prog, q, ex):
                             % (opk, "/".join(sorted(fl & set(fields))), i.origin, i.d["ord"], role, need),
                             sample={"field": sorted(fl & set(fields)), "op": opk, "in": i.origin, "order": i.d["ord"], "role": role})
     for k, (fields, op, origins, need, role, floor) in enumerate(MO_TABLE):
+        if counts.get(k, 0) >= floor:
+            continue
+        # the site may have moved (its helper merged into a caller / renamed): the same operation on the same word at a place no other table row
+        # claims takes over the role - the obligation is on the operation, not on the name of the function around it
+        claimed = set()
+        for k2, (f2, op2, or2, *_r) in enumerate(MO_TABLE):
+            if k2 != k and op2 == op and set(f2) & set(fields) and or2:
+                claimed |= set(or2)
+        for fn in prog.all_functions():
+            for i in fn.all_insts():
+                opk = i.op + (":" + i.d["rmw"] if i.op == "atomicrmw" else "")
+                if opk != op or not (prog.fields(i) & set(fields)) or (origins and i.origin in origins) or i.origin in claimed:
+                    continue
+                if i.op in ("load", "store") and i.d.get("ord") in (None, "na"):
+                    continue
+                counts[k] = counts.get(k, 0) + 1
+                rep.require(rid, has(i.d["ord"], need), i.loc, i.origin, "order:%s:%s:%s" % ("/".join(fields), opk, i.origin),
+                            "%s %s in %s is '%s' but its role (%s) needs %s: the hand-off no longer orders the memory it protects"
+                            % (opk, "/".join(sorted(prog.fields(i) & set(fields))), i.origin, i.d["ord"], role, need),
+                            sample={"field": sorted(prog.fields(i) & set(fields)), "op": opk, "in": i.origin, "order": i.d["ord"], "role": role, "moved": True})
         if counts.get(k, 0) < floor:
             rep.unknown(rid, "reference site vanished: %s %s %s matched %d < %d" % (fields, op, origins, counts.get(k, 0), floor))
     # dq_state: roles from effects
